@@ -16,7 +16,7 @@ import hashlib
 TARGET_FUNCTIONS = ('build', 'clear', '__call__', '_create_caches', 'text_decode', 'text_is_valid', 'raw_decode',
                     'update_elements', '_lazy_iterparse', 'cached_selector', 'get_instance_type', 'load',
                     'check_validator', 'validation_context', 'collect_key_fields', 'get_counter', 'iter_errors',
-                    'get_element', 'build_builtins')
+                    'get_element', 'build_builtins', '__copy__', '_set_type', 'get_xpath_node')
 
 
 # functions that touch state shared between threads: when a run enables line-level pre-emption, every LINE of
